@@ -500,6 +500,105 @@ pub fn check_constructed(kind: &str, n: usize) -> Vec<Finding> {
     }
 }
 
+/// The same domain name obtained through different API paths (Name::new, new_unchecked,
+/// try_from, parsed from the wire, `longer.without(suffix)`, and owned copies of each), used as
+/// owner name and inside the RDATA of every common name-bearing type: whatever the path, both
+/// serialisers write the name's bytes, a correct RDLENGTH, and the record that follows intact.
+pub fn check_name_variants(text: &str, path: u8, rtype: u16) -> Vec<Finding> {
+    use simple_dns::rdata::{RData, A, CNAME, MX, NS, PTR, SOA, SRV};
+    use simple_dns::{Name, Question, ResourceRecord, CLASS, QCLASS, QTYPE, TYPE};
+    use std::convert::TryFrom;
+    let case = json!({"kind": "name-variant", "text": text, "path": path, "rtype": rtype});
+    let want_name = crate::refmodel::RefName::txt(text);
+    // the message the derived name is parsed from (paths 3 and 6 take it from here)
+    let carrier: Vec<u8> = {
+        let mut p = RefPacket { id: 1, flags: F_QR, ..Default::default() };
+        let mut longer = want_name.0.clone();
+        longer.extend(crate::refmodel::RefName::txt("zone.test").0);
+        p.answers.push(rr(text, typed(12, vec![crate::refmodel::schema::Val::Name(crate::refmodel::RefName(longer))])));
+        p.encode(0)
+    };
+    let r = guarded(|| -> Result<Vec<(String, String)>, String> {
+        let mut bad = Vec::new();
+        let parsed_carrier = Packet::parse(&carrier).map_err(|e| format!("carrier: {:?}", e))?;
+        let suffix = Name::new_unchecked("zone.test");
+        let long_text = format!("{}.zone.test", text);
+        let derived: Name<'static> = match path {
+            0 => Name::new(text).map_err(|e| format!("{:?}", e))?.into_owned(),
+            1 => Name::new_unchecked(text).into_owned(),
+            2 => Name::try_from(text).map_err(|e| format!("{:?}", e))?.into_owned(),
+            3 => parsed_carrier.answers[0].name.clone().into_owned(),
+            4 => Name::new_unchecked(&long_text).without(&suffix).ok_or("without returned None")?.into_owned(),
+            5 => Name::new(&long_text).map_err(|e| format!("{:?}", e))?.without(&suffix).ok_or("without returned None")?.clone().into_owned(),
+            _ => match &parsed_carrier.answers[0].rdata {
+                RData::PTR(p) => p.0.without(&suffix).ok_or("without returned None")?.into_owned(),
+                _ => return Err("carrier shape".into()),
+            },
+        };
+        let other = Name::new_unchecked("other.example");
+        let rdata = match rtype {
+            12 => RData::PTR(PTR(derived.clone())),
+            2 => RData::NS(NS(derived.clone())),
+            5 => RData::CNAME(CNAME(derived.clone())),
+            15 => RData::MX(MX { preference: 10, exchange: derived.clone() }),
+            33 => RData::SRV(SRV { priority: 1, weight: 2, port: 3, target: derived.clone() }),
+            _ => RData::SOA(SOA { mname: derived.clone(), rname: other.clone(), serial: 1, refresh: 2, retry: 3, expire: 4, minimum: 5 }),
+        };
+        let mut p = Packet::new_reply(7);
+        p.questions.push(Question::new(derived.clone(), QTYPE::TYPE(TYPE::A), QCLASS::CLASS(CLASS::IN), false));
+        p.answers.push(ResourceRecord::new(derived.clone(), CLASS::IN, 60, rdata));
+        p.additional_records.push(ResourceRecord::new(Name::new_unchecked("after.example"), CLASS::IN, 61, RData::A(A { address: 0x01020304 })));
+        let plain = p.build_bytes_vec().map_err(|e| format!("build_bytes_vec: {:?}", e))?;
+        let comp = p.build_bytes_vec_compressed().map_err(|e| format!("build_bytes_vec_compressed: {:?}", e))?;
+        for (mode, bytes) in [("plain", &plain), ("compressed", &comp)] {
+            match decode_packet(bytes) {
+                Err(e) => bad.push((format!("{}|framing", mode), format!("{} output not well-framed: {:?}: {}", mode, e, crate::engine::truncate(&crate::engine::hex(bytes), 300)))),
+                Ok((d, w)) => {
+                    if w.end != bytes.len() || w.counts != [1, 1, 0, 1] {
+                        bad.push((format!("{}|counts-or-trailing", mode), format!("counts {:?}, {} bytes after the last entry", w.counts, bytes.len() - w.end)));
+                    }
+                    let got_q = d.questions.first().map(|q| q.name.clone());
+                    let got_o = d.answers.first().map(|r| r.name.clone());
+                    if got_q.as_ref() != Some(&want_name) || got_o.as_ref() != Some(&want_name) {
+                        bad.push((format!("{}|name", mode), format!("question / owner name written as {:?} / {:?}, expected {:?}", got_q, got_o, want_name)));
+                    }
+                    let rd_ok = match d.answers.first().map(|r| &r.rdata) {
+                        Some(RefRData::Typed { code, vals }) => *code == rtype && vals.iter().any(|v| matches!(v, crate::refmodel::schema::Val::Name(n) if *n == want_name)),
+                        _ => false,
+                    };
+                    if !rd_ok {
+                        bad.push((format!("{}|rdata-name", mode), format!("RDATA decodes as {:?}", d.answers.first().map(|r| &r.rdata))));
+                    }
+                    if d.additional.len() != 1 || d.additional[0].rdata != typed(1, vec![crate::refmodel::schema::Val::U32(0x01020304)]) {
+                        bad.push((format!("{}|following-record", mode), "the A record after the name-bearing record does not decode as written".to_string()));
+                    }
+                }
+            }
+            if Packet::parse(bytes).is_err() {
+                bad.push((format!("{}|unparseable", mode), "the library rejects its own output".to_string()));
+            }
+        }
+        Ok(bad)
+    });
+    match r {
+        Err(pn) => vec![finding(format!("C04|name-variant|{}", pn.sig()), format!("{:?}", pn), case)],
+        Ok(Err(e)) => vec![finding("C04|name-variant|setup", e, case)],
+        Ok(Ok(bad)) => bad.into_iter().map(|(t, d)| finding(format!("C04|name-variant|{}", t), d, case.clone())).collect(),
+    }
+}
+
+pub fn name_variant_cases() -> Vec<(&'static str, u8, u16)> {
+    let mut v = Vec::new();
+    for text in ["a", "a.b", "host.example.com", "x.y.z.local", "_http._tcp.local", "w.zone.test", "zone.test.a"] {
+        for path in 0..7u8 {
+            for rtype in [12u16, 2, 5, 15, 33, 6] {
+                v.push((text, path, rtype));
+            }
+        }
+    }
+    v
+}
+
 /// Buffering writers (std's BufWriter over a growable and over a fixed sink): when a write
 /// call returns Ok the sink itself - looked at without an extra flush by the caller - holds the
 /// message the vector-returning function gives; a sink one byte too small makes the call fail.
@@ -750,6 +849,20 @@ pub fn run(ctx: &Ctx) {
     });
     ctx.space("non-initial states: every packet of the first family parsed from its compressed reference encoding, then one of 8 edits (push question / answer, append to TXT, set / clear OPT, remove, rename), then serialised and decoded strictly", edits.len() as u64, "complete");
     {
+        let cases = name_variant_cases();
+        par_shards(ctx, &cases, |(text, path, rtype), t: &mut Tally| {
+            t.evals += 1;
+            t.nontrivial += 1;
+            t.transitions += 2;
+            let f = check_name_variants(text, *path, *rtype);
+            t.outcome(if f.is_empty() { "framed" } else { "ill-framed" });
+            if !f.is_empty() {
+                ctx.violations(f);
+            }
+        });
+        ctx.space("names obtained through different API paths (Name::new, new_unchecked, try_from, parsed from the wire, longer.without(suffix) on built and on parsed names, owned copies) x 7 names x {PTR, NS, CNAME, MX, SRV, SOA}: as question, owner and RDATA name, both serialisers, the following record intact", cases.len() as u64, "complete");
+    }
+    {
         let firsts: Vec<&RefPacket> = space[..n1].iter().collect();
         let chunks: Vec<&[&RefPacket]> = firsts.chunks(64).collect();
         par_shards(ctx, &chunks, |ps, t: &mut Tally| {
@@ -787,6 +900,9 @@ pub fn run(ctx: &Ctx) {
 }
 
 pub fn replay(case: &Value) -> Vec<Finding> {
+    if case["kind"].as_str() == Some("name-variant") {
+        return check_name_variants(case["text"].as_str().unwrap_or("a"), case["path"].as_u64().unwrap_or(0) as u8, case["rtype"].as_u64().unwrap_or(12) as u16);
+    }
     if case["kind"].as_str() == Some("buffered") {
         return match serde_json::from_value::<RefPacket>(case["packet"].clone()) {
             Ok(p) => check_buffered(&p),
